@@ -40,6 +40,11 @@ impl Rng {
     }
 }
 
+/// root of the repository under test (default /repo; VERIF_REPO overrides, used by scratch worktrees)
+pub fn repo() -> String {
+    std::env::var("VERIF_REPO").unwrap_or_else(|_| "/repo".to_string())
+}
+
 // ---------- Coq term printing ----------
 pub fn cn<T: Into<u128>>(x: T) -> String {
     format!("{}%N", x.into())
